@@ -711,6 +711,65 @@ func runC08(c *Ctx) {
 				c.bad(fn, "transport EOF", fn.Pos(), "transport EOF no longer moves the stream to StateTerminated")
 			}
 		}
+		// the stream recognises the end of the transport by comparing with io.EOF: the layer in between (CodecConn) must hand
+		// the transport's read error on as it is
+		{
+			bbReadFrom := p.Method("sonic", "ByteBuffer", "ReadFrom")
+			bbAsyncReadFrom := p.Method("sonic", "ByteBuffer", "AsyncReadFrom")
+			nPass := 0
+			for _, fn := range p.Funcs {
+				if fn.Parent() != nil {
+					continue
+				}
+				if pk, tn := recvTypeName(fn); pk+"."+tn != modPath+".CodecConn" {
+					continue
+				}
+				switch pinName(fn) {
+				case "ReadNext":
+					for _, rc := range callsToFn(fn, bbReadFrom) {
+						errv := extractOfInstr(rc.(ssa.Instruction), 1)
+						if errv == nil {
+							continue
+						}
+						for _, r := range returnsOf(fn) {
+							for _, l := range guardsOf(r.Block()) {
+								if x, eq, ok := l.nilTest(); ok && !eq && strip(x) == errv {
+									nPass++
+									c.check(strip(r.Results[len(r.Results)-1]) == errv, fn, "transport error unchanged", exitPos(r), "the error of the failed read is returned as it is", "ReadNext reports a failed transport read with another error value than the one the transport returned: the stream above recognises the end of the transport by err == io.EOF, so a converted error leaves it active with no 1006 close surfaced")
+								}
+							}
+						}
+					}
+				case "AsyncReadNext":
+					for _, rc := range callsToFn(fn, bbAsyncReadFrom) {
+						mc, ok := strip(rc.Common().Args[len(rc.Common().Args)-1]).(*ssa.MakeClosure)
+						if !ok {
+							continue
+						}
+						cf := mc.Fn.(*ssa.Function)
+						if len(cf.Params) == 0 {
+							continue
+						}
+						errp := ssa.Value(cf.Params[0])
+						eachInstr(cf, func(in ssa.Instruction) {
+							call, ok := in.(ssa.CallInstruction)
+							if !ok || !isDynamicFuncCall(call) || len(call.Common().Args) == 0 {
+								return
+							}
+							for _, l := range guardsOf(in.Block()) {
+								if x, eq, ok := l.nilTest(); ok && !eq && strip(x) == errp {
+									nPass++
+									c.check(strip(call.Common().Args[0]) == errp, fn, "transport error unchanged", in.Pos(), "the error of the failed read is handed to the callback as it is", "AsyncReadNext completes a failed transport read with another error value than the one the transport reported: the stream above recognises the end of the transport by err == io.EOF, so a converted error leaves it active with no 1006 close surfaced")
+								}
+							}
+						})
+					}
+				}
+			}
+			if nPass < 2 {
+				c.bad(w.nextFrame, "transport error unchanged", w.nextFrame.Pos(), "the error paths of CodecConn.ReadNext / AsyncReadNext were not found (anchor moved): %d", nPass)
+			}
+		}
 		// FIFO of pendingFrames
 		for _, fn := range fns {
 			for _, a := range fieldAccesses(fn, w.pendingFrames) {
